@@ -206,6 +206,30 @@ Definition decode_all (text : list N) (sched : list nat) (dests : list nat) : ou
   drive (S (length text)) dests dests []
         {| pending := []; bsize := O; rd := (text, sched) |}.
 
+(* the same drive, also reporting what the successful read calls had delivered when a later call fails
+   (a caller that streams the output has consumed these bytes already) *)
+Fixpoint drive_p (fuel : nat) (dests all : list nat) (acc : list N) (st : dec_state)
+  : list N * outcome unit :=
+  match fuel with
+  | O => (acc, OutOfFuel)
+  | S f =>
+      let '(d, ds) := next_dest dests all in
+      match dec_read d st with
+      | Ok (bs, st') =>
+          match bs with
+          | [] => (acc, Ok tt)
+          | _ => drive_p f ds all (acc ++ bs) st'
+          end
+      | Err e => (acc, Err e)
+      | Panic s => (acc, Panic s)
+      | OutOfFuel => (acc, OutOfFuel)
+      end
+  end.
+
+Definition decode_all_partial (text : list N) (sched : list nat) (dests : list nat) : list N * outcome unit :=
+  drive_p (S (length text)) dests dests []
+          {| pending := []; bsize := O; rd := (text, sched) |}.
+
 (* ---------- pure reference decoder used to state what decode_all computes ---------- *)
 Fixpoint spec_dec (fuel : nat) (text : list N) : option (list N) :=
   match fuel with
